@@ -30,11 +30,11 @@ func newNode(op byte, a, b *node, k *big.Int, v int) *node {
 	return &node{id: int(nodeCounter.Add(1)), op: op, a: a, b: b, k: k, v: v}
 }
 
-func rawVar(id int) *node        { return newNode('v', nil, nil, nil, id) }
-func rawConst(k *big.Int) *node  { return newNode('c', nil, nil, new(big.Int).Set(k), 0) }
-func rawAdd(a, b *node) *node    { return rawBin('+', a, b) }
-func rawSub(a, b *node) *node    { return rawBin('-', a, b) }
-func rawMul(a, b *node) *node    { return rawBin('*', a, b) }
+func rawVar(id int) *node       { return newNode('v', nil, nil, nil, id) }
+func rawConst(k *big.Int) *node { return newNode('c', nil, nil, new(big.Int).Set(k), 0) }
+func rawAdd(a, b *node) *node   { return rawBin('+', a, b) }
+func rawSub(a, b *node) *node   { return rawBin('-', a, b) }
+func rawMul(a, b *node) *node   { return rawBin('*', a, b) }
 func rawNeg(a *node) *node {
 	if a == nil {
 		return nil
